@@ -1,5 +1,8 @@
 --------------------------- MODULE MomentFire_MC ---------------------------
-(* configurations of the bounded instance: 2 kinds x 8 event sets x 5 starts *)
+(* configurations of the bounded instance:
+     one node  "t0.a":            2 kinds x 8 event sets x 5 starts          =  80
+     two nodes "t0.a" + "t1.a" (same short algorithm name, different package)
+            or "t0.a" + "t1.b":   2 tags x 3 kind pairs x 6 event-set pairs x 2 starts = 72 *)
 EXTENDS MomentFire
 Noon == 43200
 W(n)  == [k |-> "dow", n |-> n, t |-> Noon]
@@ -12,7 +15,17 @@ Starts == { DayIndex(2024, 2, 26) * DAY,            \* Monday 00:00, two days be
             DayIndex(2024, 2, 28) * DAY + 46800,    \* Wednesday 13:00, the moment just missed
             DayIndex(2023, 12, 30) * DAY,           \* year end, the day before a 31st
             DayIndex(2024, 1, 31) * DAY + 43080 }   \* 31 January 11:58, inside the firing window
-ConfigsAll   == [kind : {"task", "analysis"}, events : EventSets, start : Starts]
-ConfigsSmall == [kind : {"task", "analysis"}, events : {{W(2)}, {B, M(1)}}, start : {DayIndex(2024, 2, 26) * DAY}]
+Kinds == {"task", "analysis"}
+N(k, es) == [kind |-> k, events |-> es]
+Configs1 == { [start |-> s, nodes |-> ("t0.a" :> N(k, es))] : s \in Starts, k \in Kinds, es \in EventSets }
+
+EventPairs == { <<{B}, {B}>>, <<{B}, {B, W(2)}>>, <<{B, W(2)}, {B}>>, <<{W(2)}, {W(4)}>>, <<{B}, {M(15)}>>, <<{B, M(1)}, {B}>> }
+KindPairs  == { <<"task", "task">>, <<"task", "analysis">>, <<"analysis", "task">> }
+Starts2    == { DayIndex(2024, 2, 26) * DAY, DayIndex(2024, 2, 28) * DAY + Noon }
+Configs2 == { [start |-> s, nodes |-> ("t0.a" :> N(kp[1], ep[1]) @@ tag :> N(kp[2], ep[2]))] :
+                 s \in Starts2, tag \in {"t1.a", "t1.b"}, kp \in KindPairs, ep \in EventPairs }
+
+ConfigsAll   == Configs1 \cup Configs2
+ConfigsSmall == { [start |-> DayIndex(2024, 2, 26) * DAY, nodes |-> ("t0.a" :> N(k, es))] : k \in Kinds, es \in {{W(2)}, {B, M(1)}} }
 JumpsStd == {3600, DAY, 7 * DAY, 31 * DAY}
 =============================================================================
